@@ -374,6 +374,69 @@ pub fn gen_plan(rng: &mut Rng, focus: &str, thorough: bool) -> WirePlan {
             imports.push((rng.range(0, 100_000), gen_import(rng, n as usize)));
         }
     }
+    // sweeping deletes: a pattern with a leading wildcard empties several top level keys at once,
+    // watched by ls-subscriptions on the root and on the parents that go away
+    if focus == "C05" && rng.chance(1, 3) && !clients.is_empty() {
+        let watcher = rng.below(clients.len() as u64) as usize;
+        let parent = match rng.below(4) {
+            0 | 1 => Value::Null,
+            2 => json!("a"),
+            _ => json!("b"),
+        };
+        clients[watcher].ops.insert(0, Op::Req(json!({"subscribeLs": {"parent": parent}})));
+        let sweeper = rng.below(clients.len() as u64) as usize;
+        let seg = *rng.pick(&["a", "b", "c"]);
+        let pat = match rng.below(5) {
+            0 => "#".to_owned(),
+            1 => "?/#".to_owned(),
+            2 => "?/?".to_owned(),
+            _ => format!("?/{seg}"),
+        };
+        let ops = &mut clients[sweeper].ops;
+        for (i, top) in ["a", "b", "c"].iter().enumerate() {
+            if rng.chance(2, 3) {
+                ops.push(Op::Req(json!({"set": {"key": format!("{top}/{seg}"), "value": format!("sw{sweeper}_{i}")}})));
+            }
+        }
+        ops.push(Op::Req(json!({"pDelete": {"requestPattern": pat}})));
+    }
+    // an import that re-states a value some client writes, but as another kind of entry or with
+    // another CAS version: nothing visible changes except cget's version and what later writes
+    // are accepted
+    if matches!(focus, "C01" | "C02" | "C11") && rng.chance(1, 3) {
+        let mut written: Vec<(String, Value)> = vec![];
+        for c in &clients {
+            for op in &c.ops {
+                if let Op::Req(v) = op {
+                    for kind in ["set", "cSet"] {
+                        if let Some(m) = v.get(kind) {
+                            if let (Some(k), Some(val)) = (m.get("key").and_then(|k| k.as_str()), m.get("value")) {
+                                if !model::is_sys(k) && model::has_wildcard(k).is_none() && !k.is_empty() && !k.split('/').any(|s| s.is_empty()) {
+                                    written.push((k.to_owned(), val.clone()));
+                                }
+                            }
+                        }
+                    }
+                }
+            }
+        }
+        if !written.is_empty() {
+            let (k, val) = rng.pick(&written).clone();
+            let entry = if rng.chance(2, 3) {
+                json!({"Cas": [val, *rng.pick(&[1u64, 2, 3, 7])]})
+            } else {
+                val
+            };
+            let mut node = json!({"v": entry});
+            for seg in k.split('/').rev() {
+                node = json!({"t": {seg: node}});
+            }
+            // long after the clients are done: two announcements of the same key and value
+            // cannot be told apart, so the import must not race with the write it re-states; the
+            // read-back at the end shows whether kind and version are the imported ones
+            imports.push((60_000_000 + rng.range(0, 1_000), json!({"data": node}).to_string()));
+        }
+    }
     let mut auth = None;
     if focus == "C15" {
         let pats = ["a/#", "a/?", "b", "#", "a/b/#", "?/a", "a", "b/#", "?", "a/?/?"];
@@ -782,6 +845,43 @@ pub async fn run(plan: WirePlan) -> Outcome {
 
     // ---- history checks
     let mut history = hist.snapshot();
+    // lock state at the end, probed through the API handle *after* the history was taken (the
+    // probe's own bookkeeping events are nobody's business): key -> still locked by somebody
+    let mut lock_probe: BTreeMap<String, bool> = BTreeMap::new();
+    {
+        let mut lock_keys: BTreeSet<String> = BTreeSet::new();
+        for c in &plan.clients {
+            for op in &c.ops {
+                if let Op::Req(v) = op {
+                    for kind in ["lock", "acquireLock", "releaseLock"] {
+                        if let Some(k) = v.get(kind).and_then(|m| m.get("key")).and_then(|k| k.as_str()) {
+                            if model::has_wildcard(k).is_none() && !k.is_empty() {
+                                lock_keys.insert(k.to_owned());
+                            }
+                        }
+                    }
+                }
+            }
+        }
+        if !lock_keys.is_empty() {
+            let probe_id = ClientId::from_u128(0xffff_ffff_ffff_ffff_ffff_ffff_ffff_fe02);
+            let t = Duration::from_secs(10);
+            let _ = tokio::time::timeout(t, server.api.connected(probe_id, None, worterbuch_common::Protocol::TCP)).await;
+            for k in lock_keys {
+                match tokio::time::timeout(t, server.api.lock(k.clone(), probe_id)).await {
+                    Ok(Ok(())) => {
+                        lock_probe.insert(k.clone(), false);
+                        let _ = tokio::time::timeout(t, server.api.release_lock(k, probe_id)).await;
+                    }
+                    Ok(Err(worterbuch_common::error::WorterbuchError::KeyIsLocked(_))) => {
+                        lock_probe.insert(k, true);
+                    }
+                    _ => {}
+                }
+            }
+            let _ = tokio::time::timeout(t, server.api.disconnected(probe_id, None)).await;
+        }
+    }
     // API imports become pseudo requests of the API client
     let _ = &mut history;
     let mut parsed = check_wire::parse(&history, &protos);
@@ -814,7 +914,7 @@ pub async fn run(plan: WirePlan) -> Outcome {
             ck.check_unplaced(&rp);
             ck.check_subscriptions(&rp);
             ck.check_ls_subscriptions(&rp, &alive);
-            let pending_ok = crate::check_locks::check(&mut ck, &rp, &alive);
+            let pending_ok = crate::check_locks::check(&mut ck, &rp, &alive, &lock_probe);
             ck.check_answers(&alive, &pending_ok);
             ck.check_readback(&rp, &rb);
             if let Some(a) = &plan.auth {
